@@ -244,3 +244,697 @@ Lemma gossip_tick_payload n d v : (d, v) ∈ snd (fst (gossip_tick n)) -> v = nd
 Proof. unfold gossip_tick. destruct (broadcast n) as [n1 out] eqn:E. cbn. intros H. change out with (snd (n1, out)) in H. rewrite <- E in H. eapply broadcast_payload; exact H. Qed.
 Lemma gossip_tick_events n : snd (gossip_tick n) = [].
 Proof. unfold gossip_tick. destruct (broadcast n). reflexivity. Qed.
+
+(** * Theorem 2: the exchange round
+
+    Information flow is tracked by annotating the world: every node carries the list of ORIGINS (addresses of
+    running nodes) whose initial view has flowed into its view - initially just itself; a GossipMessage carries
+    the origins of its sender at send time; a delivery adds the packet's origins to the receiver's.  [astep] is
+    [step_world] on the annotated world for the steps of a round (gossip ticks, deliveries, losses). *)
+
+Notation origins := (list (list N)).
+
+Record aworld := AWorld {
+  aw_nodes : gmap (list N) (node * origins);
+  aw_net : list (packet * origins)
+}.
+
+Definition erase (aw : aworld) : world := World (fst <$> aw_nodes aw) (map fst (aw_net aw)).
+Definition annotate (w : world) : aworld :=
+  AWorld (map_imap (fun a n => Some (n, [a])) (w_nodes w)) (map (fun p => (p, [])) (w_net w)).
+
+Definition round_step (s : step) : bool :=
+  match s with SGossipTick _ | SDeliver _ _ | SDrop _ => true | _ => false end.
+
+Definition astep (aw : aworld) (now : Z) (s : step) : option (aworld * evlog) :=
+  match s with
+  | SGossipTick a =>
+      match aw_nodes aw !! a with
+      | Some (n, o) =>
+          if nd_gossip_on n then
+            let '(n1, out, evs) := gossip_tick n in
+            Some (AWorld (<[nd_addr n1 := (n1, o)]> (aw_nodes aw)) (aw_net aw ++ map (fun p => (p, o)) (stamp a out)), tag a evs)
+          else None
+      | None => None
+      end
+  | SDeliver k choice =>
+      if N.of_nat (length (aw_net aw)) <=? k then None else
+      match aw_net aw !! N.to_nat k with
+      | None => None
+      | Some (p, op) =>
+          let net1 := remove_at k (aw_net aw) in
+          match aw_nodes aw !! p_dst p with
+          | None => match choice with None => Some (AWorld (aw_nodes aw) net1, []) | Some _ => None end
+          | Some (n, o) =>
+              let cands := refresh_candidates (nd_view n) (p_src p) in
+              let valid := match choice with
+                           | None => match cands with [] => true | _ :: _ => negb (nonempty (p_src p)) end
+                           | Some id => bool_decide (id ∈ cands)
+                           end in
+              if valid then
+                let '(n1, out, evs) := handle_gossip n (p_src p) (p_view p) now choice in
+                Some (AWorld (<[nd_addr n1 := (n1, o ++ op)]> (aw_nodes aw))
+                             (net1 ++ map (fun q => (q, o ++ op)) (stamp (p_dst p) out)), tag (p_dst p) evs)
+              else None
+          end
+      end
+  | SDrop k =>
+      if N.of_nat (length (aw_net aw)) <=? k then None
+      else Some (AWorld (aw_nodes aw) (remove_at k (aw_net aw)), [])
+  | _ => None
+  end.
+
+Fixpoint arun (aw : aworld) (sc : list (Z * step)) : option (aworld * evlog) :=
+  match sc with
+  | [] => Some (aw, [])
+  | (now, s) :: rest =>
+      match astep aw now s with
+      | None => None
+      | Some (aw1, l1) => match arun aw1 rest with
+                          | None => None
+                          | Some (aw2, l2) => Some (aw2, l1 ++ l2)
+                          end
+      end
+  end.
+
+Lemma list_lookup_map {A B} (f : A -> B) (l : list A) i : map f l !! i = f <$> l !! i.
+Proof. exact (list_lookup_fmap f l i). Qed.
+
+Lemma remove_at_map {A B} (f : A -> B) k (l : list A) : remove_at k (map f l) = map f (remove_at k l).
+Proof.
+  unfold remove_at. generalize (N.to_nat k). intros i. revert i.
+  induction l as [|x l IH]; intros [|i]; cbn; try reflexivity. f_equal. apply IH.
+Qed.
+
+Lemma stamp_annot_erase (o : origins) ps : map fst (map (fun p : packet => (p, o)) ps) = ps.
+Proof. rewrite map_map. cbn. apply map_id. Qed.
+
+(** the annotation is invisible: on the steps of a round the annotated step IS step_world *)
+Lemma astep_erase aw now s :
+  round_step s = true ->
+  step_world (erase aw) now s = (fun r => (erase (fst r), snd r)) <$> astep aw now s.
+Proof.
+  destruct s as [c asks|a asks|a|a asks|k choice|k|a|a|a id]; try discriminate; intros _; cbn [step_world astep].
+  - unfold erase at 1; cbn [w_nodes]. rewrite lookup_fmap.
+    destruct (aw_nodes aw !! a) as [[n o]|]; [|reflexivity]. cbn [fmap option_fmap option_map fst].
+    destruct (nd_gossip_on n); [|reflexivity].
+    destruct (gossip_tick n) as [[n1 out] evs]. cbn [fmap option_fmap option_map fst snd].
+    unfold add_net, put_node, erase; cbn [w_nodes w_net aw_nodes aw_net].
+    rewrite fmap_insert, map_app, stamp_annot_erase. reflexivity.
+  - unfold erase at 1 2 3 4; cbn [w_nodes w_net]. rewrite map_length.
+    destruct (N.of_nat (length (aw_net aw)) <=? k); [reflexivity|].
+    rewrite list_lookup_map.
+    destruct (aw_net aw !! N.to_nat k) as [[p op]|]; [|reflexivity]. cbn [fmap option_fmap option_map fst].
+    rewrite lookup_fmap.
+    destruct (aw_nodes aw !! p_dst p) as [[n o]|]; cbn [fmap option_fmap option_map fst].
+    + match goal with |- context [if ?b then _ else None] => destruct b end; [|reflexivity].
+      destruct (handle_gossip n (p_src p) (p_view p) now choice) as [[n1 out] evs].
+      cbn [fmap option_fmap option_map fst snd].
+      unfold add_net, put_node, erase; cbn [w_nodes w_net aw_nodes aw_net].
+      rewrite fmap_insert, map_app, stamp_annot_erase, remove_at_map. reflexivity.
+    + destruct choice; [reflexivity|]. cbn [fmap option_fmap option_map fst snd].
+      unfold erase; cbn [aw_nodes aw_net w_nodes w_net]. rewrite remove_at_map. reflexivity.
+  - unfold erase at 1 2 3; cbn [w_nodes w_net]. rewrite map_length.
+    destruct (N.of_nat (length (aw_net aw)) <=? k); [reflexivity|].
+    cbn [fmap option_fmap option_map fst snd]. unfold erase; cbn [aw_nodes aw_net w_nodes w_net]. rewrite remove_at_map. reflexivity.
+Qed.
+
+Lemma arun_erase aw sc :
+  forallb (fun p => round_step (snd p)) sc = true ->
+  run (erase aw) sc = (fun r => (erase (fst r), snd r)) <$> arun aw sc.
+Proof.
+  revert aw. induction sc as [|[now s] rest IH]; intros aw H; cbn [run arun]; [reflexivity|].
+  cbn [forallb snd] in H. apply andb_true_iff in H as [H1 H2].
+  rewrite astep_erase by exact H1.
+  destruct (astep aw now s) as [[aw1 l1]|]; cbn [fmap option_fmap option_map fst snd]; [|reflexivity].
+  rewrite IH by exact H2.
+  destruct (arun aw1 rest) as [[aw2 l2]|]; reflexivity.
+Qed.
+
+Lemma erase_annotate w : erase (annotate w) = w.
+Proof.
+  destruct w as [ns net]. unfold erase, annotate; cbn. f_equal.
+  - apply map_eq. intros a. rewrite lookup_fmap, map_lookup_imap. destruct (ns !! a); reflexivity.
+  - rewrite map_map. cbn. apply map_id.
+Qed.
+
+(** ** the join of a list of views depends only on the set of views *)
+Lemma pjoin_all_set_eq l1 l2 : same_set l1 l2 -> pjoin_all l1 = pjoin_all l2.
+Proof.
+  intros H. apply map_eq. intros k.
+  destruct (pjoin_all l1 !! k) as [p|] eqn:E1.
+  - destruct (pjoin_all_some _ _ _ E1) as [(v & Hv & Hvk) Hmax1].
+    destruct (pjoin_all l2 !! k) as [q|] eqn:E2.
+    + destruct (pjoin_all_some _ _ _ E2) as [(u & Hu & Huk) Hmax2]. f_equal.
+      apply inc_lt_total; [apply (Hmax1 u q); [apply H; exact Hu|exact Huk]|apply (Hmax2 v p); [apply H; exact Hv|exact Hvk]].
+    + pose proof (proj1 (pjoin_all_none l2 k) E2 v (proj1 (H v) Hv)) as Hn. congruence.
+  - symmetry. apply pjoin_all_none. intros v Hv. apply (proj1 (pjoin_all_none l1 k) E1). apply H. exact Hv.
+Qed.
+
+Section Round.
+  Variable w0 : world.
+
+  Definition view0 (a : list N) : option view := nd_view <$> w_nodes w0 !! a.
+  (** the join of the initial views of a list of origins *)
+  Definition pj (o : origins) : pmap := pjoin_all (omap view0 o).
+  Definition all_views0 : list view := map nd_view (map snd (map_to_list (w_nodes w0))).
+
+  Lemma pj_app o1 o2 : pj (o1 ++ o2) = pjoin (pj o1) (pj o2).
+  Proof. unfold pj. rewrite omap_app. apply pjoin_all_app. Qed.
+
+  Definition known (o : origins) : Prop := forall b, b ∈ o -> is_Some (w_nodes w0 !! b).
+
+  Definition AInv (aw : aworld) : Prop :=
+    (forall a n o, aw_nodes aw !! a = Some (n, o) ->
+       nd_addr n = a /\ WF (nd_view n) /\ proj (nd_view n) = pj o /\ known o) /\
+    (forall p o, (p, o) ∈ aw_net aw -> WF (p_view p) /\ proj (p_view p) = pj o /\ known o).
+
+  Hypothesis keyed : forall a n, w_nodes w0 !! a = Some n -> nd_addr n = a.
+  Hypothesis wf0 : forall a n, w_nodes w0 !! a = Some n -> WF (nd_view n).
+  Hypothesis net0 : w_net w0 = [].
+
+  Lemma AInv_init : AInv (annotate w0).
+  Proof.
+    split.
+    - intros a n o H. unfold annotate in H; cbn in H. rewrite map_lookup_imap in H.
+      destruct (w_nodes w0 !! a) as [m|] eqn:E; [|discriminate]. cbn in H. injection H as <- <-.
+      split; [apply keyed; exact E|]. split; [apply (wf0 _ _ E)|]. split.
+      + unfold pj, view0. cbn. rewrite E. cbn. unfold pjoin_all; cbn. rewrite pjoin_empty_r. reflexivity.
+      + intros b Hb. apply elem_of_list_singleton in Hb. subst. eexists; exact E.
+    - intros p o H. unfold annotate in H; cbn in H. rewrite net0 in H. inversion H.
+  Qed.
+
+  Lemma elem_of_remove_at {A} k (l : list A) x : x ∈ remove_at k l -> x ∈ l.
+  Proof.
+    unfold remove_at. generalize (N.to_nat k). intros i. revert i.
+    induction l as [|y l IH]; intros [|i]; cbn; intros H; try (inversion H; fail).
+    - apply elem_of_cons; auto.
+    - apply elem_of_cons in H as [->|H]; apply elem_of_cons; [auto|right; eapply IH; exact H].
+  Qed.
+
+  Lemma AInv_step aw now s aw' l : AInv aw -> astep aw now s = Some (aw', l) -> AInv aw'.
+  Proof.
+    intros [Hn Hp] Hs. destruct s as [c asks|a asks|a|a asks|k choice|k|a|a|a id]; try discriminate; cbn [astep] in Hs.
+    - (* gossip tick *)
+      destruct (aw_nodes aw !! a) as [[n o]|] eqn:E; [|discriminate].
+      destruct (nd_gossip_on n); [|discriminate].
+      destruct (gossip_tick n) as [[n1 out] evs] eqn:G. injection Hs as <- <-.
+      destruct (Hn a n o E) as (Ha & Hwf & Hpr & Hk).
+      assert (Hv1 : nd_view n1 = nd_view n) by (change n1 with (fst (fst (n1, out, evs))); rewrite <- G; apply gossip_tick_view).
+      assert (Hc1 : nd_addr n1 = a).
+      { unfold nd_addr. change n1 with (fst (fst (n1, out, evs))). rewrite <- G, gossip_tick_cfg. exact Ha. }
+      split; cbn [aw_nodes aw_net].
+      + intros b m ob Hb. rewrite Hc1 in Hb. destruct (decide (b = a)) as [->|Hne].
+        * rewrite lookup_insert in Hb. injection Hb as <- <-. rewrite Hv1. auto.
+        * rewrite lookup_insert_ne in Hb by congruence. apply (Hn b m ob Hb).
+      + intros p ob Hin. apply elem_of_app in Hin as [Hin|Hin]; [apply (Hp p ob Hin)|].
+        apply elem_of_list_fmap in Hin as (q & [= -> ->] & Hq).
+        unfold stamp in Hq. apply elem_of_list_fmap in Hq as ([d v] & -> & Hdv). cbn [p_view fst snd].
+        assert (v = nd_view n).
+        { eapply gossip_tick_payload. rewrite G. exact Hdv. }
+        subst v. auto.
+    - (* deliver *)
+      destruct (N.of_nat (length (aw_net aw)) <=? k); [discriminate|].
+      destruct (aw_net aw !! N.to_nat k) as [[p op]|] eqn:Ek; [|discriminate].
+      apply elem_of_list_lookup_2 in Ek. destruct (Hp p op Ek) as (Hpw & Hpp & Hpk).
+      destruct (aw_nodes aw !! p_dst p) as [[n o]|] eqn:E.
+      + match type of Hs with (if ?b then _ else None) = _ => destruct b end; [|discriminate].
+        destruct (handle_gossip n (p_src p) (p_view p) now choice) as [[n1 out] evs] eqn:G. injection Hs as <- <-.
+        destruct (Hn _ n o E) as (Ha & Hwf & Hpr & Hk).
+        pose proof (handle_gossip_proj n (p_src p) (p_view p) now choice Hwf Hpw) as [W1 P1].
+        rewrite G in W1, P1. cbn [fst] in W1, P1.
+        assert (Hc1 : nd_addr n1 = p_dst p).
+        { unfold nd_addr. change n1 with (fst (fst (n1, out, evs))). rewrite <- G, handle_gossip_cfg. exact Ha. }
+        assert (Hk' : known (o ++ op)).
+        { intros b Hb. apply elem_of_app in Hb as [Hb|Hb]; [apply Hk|apply Hpk]; exact Hb. }
+        assert (P2 : proj (nd_view n1) = pj (o ++ op)) by (rewrite P1, pj_app, Hpr, Hpp; reflexivity).
+        split; cbn [aw_nodes aw_net].
+        * intros b m ob Hb. rewrite Hc1 in Hb. destruct (decide (b = p_dst p)) as [->|Hne].
+          -- rewrite lookup_insert in Hb. injection Hb as <- <-. auto.
+          -- rewrite lookup_insert_ne in Hb by congruence. apply (Hn b m ob Hb).
+        * intros q ob Hin. apply elem_of_app in Hin as [Hin|Hin]; [apply elem_of_remove_at in Hin; apply (Hp q ob Hin)|].
+          apply elem_of_list_fmap in Hin as (q' & [= -> ->] & Hq).
+          unfold stamp in Hq. apply elem_of_list_fmap in Hq as ([d v] & -> & Hdv). cbn [p_view fst snd].
+          assert (v = nd_view n1).
+          { pose proof (handle_gossip_payload n (p_src p) (p_view p) now choice d v) as HP. rewrite G in HP. apply HP. exact Hdv. }
+          subst v. auto.
+      + destruct choice; [discriminate|]. injection Hs as <- <-. split; cbn [aw_nodes aw_net]; [exact Hn|].
+        intros q ob Hin. apply elem_of_remove_at in Hin. apply (Hp q ob Hin).
+    - (* drop *)
+      destruct (N.of_nat (length (aw_net aw)) <=? k); [discriminate|]. injection Hs as <- <-.
+      split; cbn [aw_nodes aw_net]; [exact Hn|].
+      intros q ob Hin. apply elem_of_remove_at in Hin. apply (Hp q ob Hin).
+  Qed.
+
+  Lemma AInv_run sc : forall aw aw' l, AInv aw -> arun aw sc = Some (aw', l) -> AInv aw'.
+  Proof.
+    induction sc as [|[now s] rest IH]; intros aw aw' l Hi Hr; cbn [arun] in Hr.
+    - injection Hr as <- <-. exact Hi.
+    - destruct (astep aw now s) as [[aw1 l1]|] eqn:E; [|discriminate].
+      destruct (arun aw1 rest) as [[aw2 l2]|] eqn:E2; [|discriminate]. injection Hr as <- <-.
+      eapply IH; [eapply AInv_step; eassumption|exact E2].
+  Qed.
+
+  (** a node whose origins cover every initially running node holds the join of all initial views *)
+  Lemma covered_is_join o :
+    known o -> (forall b, is_Some (w_nodes w0 !! b) -> b ∈ o) -> pj o = pjoin_all all_views0.
+  Proof.
+    intros Hk Hc. unfold pj. apply pjoin_all_set_eq. intros v. unfold all_views0. split.
+    - intros H. apply elem_of_list_omap in H as (b & Hb & Hv). unfold view0 in Hv.
+      destruct (w_nodes w0 !! b) as [n|] eqn:E; [|discriminate]. cbn in Hv. injection Hv as <-.
+      apply elem_of_list_fmap. exists n. split; [reflexivity|]. apply elem_of_list_fmap. exists (b, n).
+      split; [reflexivity|]. apply elem_of_map_to_list. exact E.
+    - intros H. apply elem_of_list_fmap in H as (n & -> & Hn). apply elem_of_list_fmap in Hn as ([b n'] & -> & Hbn).
+      apply elem_of_map_to_list in Hbn. cbn. apply elem_of_list_omap. exists b. split.
+      + apply Hc. eexists; exact Hbn.
+      + unfold view0. rewrite Hbn. reflexivity.
+  Qed.
+
+  (** "every running node's view reaches every other": after the round every node's origins cover all *)
+  Definition all_reached (aw : aworld) : Prop :=
+    forall a n o, aw_nodes aw !! a = Some (n, o) -> forall b, is_Some (w_nodes w0 !! b) -> b ∈ o.
+
+  Theorem exchange_round_annotated sc aw1 l :
+    arun (annotate w0) sc = Some (aw1, l) -> all_reached aw1 ->
+    forall a n, w_nodes (erase aw1) !! a = Some n ->
+      WF (nd_view n) /\ proj (nd_view n) = pjoin_all all_views0.
+  Proof.
+    intros Hr Hall a n Ha. pose proof (AInv_run sc _ _ _ AInv_init Hr) as [Hn _].
+    unfold erase in Ha; cbn in Ha. rewrite lookup_fmap in Ha.
+    destruct (aw_nodes aw1 !! a) as [[m o]|] eqn:E; [|discriminate]. cbn in Ha. injection Ha as <-.
+    destruct (Hn a m o E) as (_ & Hwf & Hpr & Hk). split; [exact Hwf|].
+    rewrite Hpr. apply covered_is_join; [exact Hk|]. apply (Hall a m o E).
+  Qed.
+End Round.
+
+(** the statement on the plain world: the annotated run exists whenever the plain one does *)
+Theorem exchange_round w0 sc w1 l :
+  (forall a n, w_nodes w0 !! a = Some n -> nd_addr n = a) ->
+  (forall a n, w_nodes w0 !! a = Some n -> WF (nd_view n)) ->
+  w_net w0 = [] ->
+  forallb (fun p => round_step (snd p)) sc = true ->
+  run w0 sc = Some (w1, l) ->
+  exists aw1, arun (annotate w0) sc = Some (aw1, l) /\ erase aw1 = w1 /\
+    (all_reached w0 aw1 ->
+     forall a n, w_nodes w1 !! a = Some n ->
+       WF (nd_view n) /\ proj (nd_view n) = pjoin_all (all_views0 w0)).
+Proof.
+  intros Hk Hwf Hnet Hsc Hr.
+  pose proof (arun_erase (annotate w0) sc Hsc) as He. rewrite erase_annotate, Hr in He.
+  destruct (arun (annotate w0) sc) as [[aw1 l1]|] eqn:Ea; [|discriminate].
+  cbn [fmap option_fmap option_map fst snd] in He. injection He as -> ->. exists aw1. split; [reflexivity|]. split; [reflexivity|].
+  intros Hall a n Ha. eapply exchange_round_annotated; eassumption.
+Qed.
+
+(** * Theorem 3: the fixpoint - gossip is suppressed when the vectors are equal *)
+
+Lemma filter_nil_forall {A} (f : A -> bool) l : (forall x, x ∈ l -> f x = false) -> List.filter f l = [].
+Proof.
+  induction l as [|x l IH]; intros H; cbn; [reflexivity|].
+  rewrite (H x) by (apply elem_of_cons; auto). apply IH. intros y Hy. apply H. apply elem_of_cons; auto.
+Qed.
+
+Lemma isort_elem {A} (le : A -> A -> bool) l x : x ∈ isort le l <-> x ∈ l.
+Proof. rewrite (isort_perm le l). reflexivity. Qed.
+
+Lemma select_targets_prune n : select_targets (prune_last n) = select_targets n.
+Proof. reflexivity. Qed.
+
+(** a target of the selection is a seed or a member address: its record survives pruneLastVersionVectors *)
+Lemma prune_keeps_target n t : t ∈ select_targets n -> nd_last (prune_last n) !! t = nd_last n !! t.
+Proof.
+  intros Ht. unfold select_targets in Ht. apply isort_elem, elem_of_remove_dups, elem_of_list_In, filter_In in Ht as [Hin Hf].
+  apply andb_true_iff in Hf as [Hne _].
+  unfold prune_last. cbn [nd_last set_last].
+  set (allowed := _ ++ _).
+  assert (Ha : t ∈ allowed).
+  { unfold allowed. apply in_app_or in Hin as [Hin|Hin].
+    - apply elem_of_app. right. apply elem_of_list_In, filter_In. split; assumption.
+    - apply elem_of_app. left. apply elem_of_list_In, filter_In. split; assumption. }
+  destruct (nd_last n !! t) as [x|] eqn:E.
+  - apply map_filter_lookup_Some. split; [exact E|exact Ha].
+  - apply map_filter_lookup_None. left. exact E.
+Qed.
+
+(** exactly when a gossip round sends to [t] *)
+Theorem gossip_sent_iff n t :
+  (exists v, (t, v) ∈ snd (fst (gossip_tick n))) <->
+  t ∈ select_targets n /\
+  match nd_last n !! t with
+  | None => True
+  | Some theirs => vcompare (vw_vv (nd_view n)) theirs = VAfter \/ vcompare (vw_vv (nd_view n)) theirs = VConcurrent
+  end.
+Proof.
+  unfold gossip_tick. destruct (broadcast n) as [n1 out] eqn:E. cbn [fst snd].
+  assert (Eo : out = snd (broadcast n)) by (rewrite E; reflexivity). rewrite Eo. clear E Eo n1 out.
+  unfold broadcast. cbn [snd]. split.
+  - intros [v H]. apply elem_of_list_fmap in H as (a & [= -> ->] & Ha).
+    apply elem_of_list_In, filter_In in Ha as [Ha1 Ha2]. apply elem_of_list_In in Ha1.
+    rewrite select_targets_prune in Ha1. split; [exact Ha1|].
+    unfold should_send in Ha2. rewrite (prune_keeps_target n a Ha1) in Ha2.
+    destruct (nd_last n !! a) as [th|]; [|exact I]. cbn [nd_view prune_last set_last view_snapshot] in Ha2.
+    destruct (vcompare (vw_vv (nd_view n)) th); try discriminate; auto.
+  - intros [Ht Hc]. exists (view_snapshot (nd_view (prune_last n))). apply elem_of_list_fmap. exists t. split; [reflexivity|].
+    apply elem_of_list_In, filter_In. split; [apply elem_of_list_In; rewrite select_targets_prune; exact Ht|].
+    unfold should_send. rewrite (prune_keeps_target n t Ht).
+    destruct (nd_last n !! t) as [th|]; [|reflexivity]. cbn [nd_view prune_last set_last view_snapshot].
+    destruct Hc as [-> | ->]; reflexivity.
+Qed.
+
+(** the fixpoint: every target's last known vector is Equal to (or After) the own one => the round sends nothing,
+    publishes nothing, and leaves the view as it is *)
+Theorem gossip_fixpoint n :
+  (forall t, t ∈ select_targets n -> exists theirs, nd_last n !! t = Some theirs /\
+       (vcompare (vw_vv (nd_view n)) theirs = VEqual \/ vcompare (vw_vv (nd_view n)) theirs = VBefore)) ->
+  snd (fst (gossip_tick n)) = [] /\ snd (gossip_tick n) = [] /\ nd_view (fst (fst (gossip_tick n))) = nd_view n.
+Proof.
+  intros H. split; [|split; [apply gossip_tick_events|apply gossip_tick_view]].
+  destruct (snd (fst (gossip_tick n))) as [|[t v] r] eqn:E; [reflexivity|]. exfalso.
+  assert (Hs : exists v', (t, v') ∈ snd (fst (gossip_tick n))) by (exists v; rewrite E; apply elem_of_cons; auto).
+  apply gossip_sent_iff in Hs as [Ht Hc]. destruct (H t Ht) as (th & Hth & Hcmp). rewrite Hth in Hc.
+  destruct Hc as [Hc|Hc], Hcmp as [Hq|Hq]; congruence.
+Qed.
+
+(** a gossip round never publishes an event and never changes the view, whatever it sends *)
+Theorem gossip_tick_silent n : snd (gossip_tick n) = [] /\ nd_view (fst (fst (gossip_tick n))) = nd_view n.
+Proof. split; [apply gossip_tick_events|apply gossip_tick_view]. Qed.
+
+(** * The quiescent state is stable when failure detection is off *)
+
+Definition suppressed (n : node) : Prop :=
+  forall t, t ∈ select_targets n -> exists theirs, nd_last n !! t = Some theirs /\
+    (vcompare (vw_vv (nd_view n)) theirs = VEqual \/ vcompare (vw_vv (nd_view n)) theirs = VBefore).
+
+(** nothing in flight, no failure-detection loop, no pending join retry, every gossip suppressed *)
+Definition quiescent (w : world) : Prop :=
+  w_net w = [] /\
+  forall a n, w_nodes w !! a = Some n ->
+    nd_addr n = a /\ nd_fd_on n = false /\ nd_retry_on n = false /\ suppressed n.
+
+Lemma gossip_tick_node n : fst (fst (gossip_tick n)) = prune_last n.
+Proof. reflexivity. Qed.
+
+Lemma suppressed_prune n : suppressed n -> suppressed (prune_last n).
+Proof.
+  intros H t Ht. rewrite select_targets_prune in Ht. destruct (H t Ht) as (th & Hth & Hc).
+  exists th. split; [rewrite prune_keeps_target by exact Ht; exact Hth|exact Hc].
+Qed.
+
+Theorem quiescent_stable w now s w' l :
+  quiescent w -> fault_free s = true -> step_world w now s = Some (w', l) ->
+  l = [] /\ quiescent w' /\ forall a, nd_view <$> (w_nodes w' !! a) = nd_view <$> (w_nodes w !! a).
+Proof.
+  intros [Hnet Hq] Hf Hs.
+  destruct s as [c asks|a asks|a|a asks|k choice|k|a|a|a id]; try discriminate; cbn [step_world] in Hs.
+  - (* join retry: not pending *)
+    destruct (w_nodes w !! a) as [n|] eqn:E; [|discriminate].
+    destruct (Hq a n E) as (_ & _ & Hr & _). rewrite Hr in Hs. discriminate.
+  - (* gossip tick *)
+    destruct (w_nodes w !! a) as [n|] eqn:E; [|discriminate].
+    destruct (Hq a n E) as (Ha & Hfd & Hr & Hsup).
+    destruct (nd_gossip_on n); [|discriminate].
+    destruct (gossip_fixpoint n Hsup) as (Hout & Hev & Hview).
+    pose proof (gossip_tick_node n) as Hnode.
+    destruct (gossip_tick n) as [[n1 out] evs]. cbn [fst snd] in *. subst out evs n1.
+    injection Hs as <- <-. split; [reflexivity|].
+    assert (Hk : nd_addr (prune_last n) = a) by exact Ha.
+    split; [split|].
+    + cbn. rewrite Hnet. reflexivity.
+    + intros b m Hb. cbn in Hb. rewrite Hk in Hb. destruct (decide (b = a)) as [->|Hne].
+      * rewrite lookup_insert in Hb. injection Hb as <-. split; [exact Ha|]. split; [exact Hfd|]. split; [exact Hr|].
+        apply suppressed_prune. exact Hsup.
+      * rewrite lookup_insert_ne in Hb by congruence. apply (Hq b m Hb).
+    + intros b. cbn. rewrite Hk. destruct (decide (b = a)) as [->|Hne].
+      * rewrite lookup_insert, E. reflexivity.
+      * rewrite lookup_insert_ne by congruence. reflexivity.
+  - (* failure-detection tick: no loop *)
+    destruct (w_nodes w !! a) as [n|] eqn:E; [|discriminate].
+    destruct (Hq a n E) as (_ & Hfd & _ & _). rewrite Hfd in Hs. discriminate.
+  - (* deliver: nothing in flight *)
+    rewrite Hnet in Hs. cbn in Hs. destruct k; discriminate.
+Qed.
+
+(** boolean versions, to establish the hypotheses on concrete worlds by computation *)
+Definition suppressed_b (n : node) : bool :=
+  forallb (fun t => match nd_last n !! t with
+                    | Some theirs => match vcompare (vw_vv (nd_view n)) theirs with VEqual | VBefore => true | _ => false end
+                    | None => false
+                    end) (select_targets n).
+Definition quiescent_b (w : world) : bool :=
+  match w_net w with [] => true | _ :: _ => false end &&
+  forallb (fun p => bool_decide (nd_addr (snd p) = fst p) && negb (nd_fd_on (snd p)) && negb (nd_retry_on (snd p)) && suppressed_b (snd p))
+          (map_to_list (w_nodes w)).
+
+Lemma suppressed_b_sound n : suppressed_b n = true -> suppressed n.
+Proof.
+  unfold suppressed_b. rewrite forallb_forall. intros H t Ht. apply elem_of_list_In in Ht. specialize (H t Ht).
+  destruct (nd_last n !! t) as [th|]; [|discriminate]. exists th. split; [reflexivity|].
+  destruct (vcompare (vw_vv (nd_view n)) th); try discriminate; auto.
+Qed.
+
+Lemma quiescent_b_sound w : quiescent_b w = true -> quiescent w.
+Proof.
+  unfold quiescent_b. rewrite andb_true_iff, forallb_forall. intros [Hn H]. split.
+  - destruct (w_net w); [reflexivity|discriminate].
+  - intros a n Ha. apply elem_of_map_to_list, elem_of_list_In in Ha. specialize (H _ Ha). cbn [fst snd] in H.
+    rewrite !andb_true_iff, !negb_true_iff, bool_decide_eq_true in H. destruct H as [[[H1 H2] H3] H4].
+    split; [exact H1|]. split; [exact H2|]. split; [exact H3|]. apply suppressed_b_sound. exact H4.
+Qed.
+
+(** * converged vs converged_b *)
+
+Lemma subset_b_true {A} `{EqDecision A} (l1 l2 : list A) : (forall x, x ∈ l1 -> x ∈ l2) -> subset_b l1 l2 = true.
+Proof.
+  intros H. unfold subset_b. apply forallb_forall. intros x Hx. apply bool_decide_eq_true. apply H, elem_of_list_In, Hx.
+Qed.
+
+Lemma converged_b_complete w : converged w -> converged_b w = true.
+Proof.
+  intros H. unfold converged_b. apply forallb_forall. intros n Hn.
+  apply elem_of_list_In, elem_of_list_fmap in Hn as ([a n'] & -> & Hn). apply elem_of_map_to_list in Hn. cbn [snd].
+  destruct (H a n' Hn) as [Hs Hl]. rewrite !andb_true_iff. split; [split|].
+  - apply subset_b_true. intros x. apply Hs.
+  - apply subset_b_true. intros x. apply Hs.
+  - apply forallb_forall. intros m Hm.
+    apply elem_of_list_In, elem_of_list_fmap in Hm as ([b m'] & -> & Hm). apply elem_of_map_to_list in Hm. cbn [snd].
+    apply bool_decide_eq_true. eapply Hl. exact Hm.
+Qed.
+
+Lemma subset_b_sound {A} `{EqDecision A} (l1 l2 : list A) : subset_b l1 l2 = true -> forall x, x ∈ l1 -> x ∈ l2.
+Proof.
+  unfold subset_b. rewrite forallb_forall. intros H x Hx. apply elem_of_list_In in Hx. specialize (H x Hx).
+  apply bool_decide_eq_true in H. exact H.
+Qed.
+
+Lemma converged_b_sound w : converged_b w = true -> converged w.
+Proof.
+  unfold converged_b. rewrite forallb_forall. intros H a n Ha.
+  assert (Hin : In n (map snd (map_to_list (w_nodes w)))).
+  { apply elem_of_list_In, elem_of_list_fmap. exists (a, n). split; [reflexivity|]. apply elem_of_map_to_list. exact Ha. }
+  specialize (H n Hin). rewrite !andb_true_iff in H. destruct H as [[H1 H2] H3]. split.
+  - intros x. split; [apply (subset_b_sound _ _ H1)|apply (subset_b_sound _ _ H2)].
+  - intros b m Hb. rewrite forallb_forall in H3.
+    assert (Hm : In m (map snd (map_to_list (w_nodes w)))).
+    { apply elem_of_list_In, elem_of_list_fmap. exists (b, m). split; [reflexivity|]. apply elem_of_map_to_list. exact Hb. }
+    specialize (H3 m Hm). apply bool_decide_eq_true in H3. exact H3.
+Qed.
+
+(** * Refutations by concrete executions *)
+
+(** a computed check of "faults, then these fair rounds, then P" yields the existential statement *)
+Lemma witness_intro (F : sched) (t d : Z) (R : list sched) (P : world -> evlog -> world -> list evlog -> bool) :
+  match run empty_world F with
+  | Some (w1, l1) => match fair_rounds w1 t d R with
+                     | Some (w2, logs) => P w1 l1 w2 logs
+                     | None => false
+                     end
+  | None => false
+  end = true ->
+  exists w1 l1 w2 logs,
+    run empty_world F = Some (w1, l1) /\ fair_rounds w1 t d R = Some (w2, logs) /\ P w1 l1 w2 logs = true.
+Proof.
+  destruct (run empty_world F) as [[w1 l1]|] eqn:E1; [|discriminate].
+  destruct (fair_rounds w1 t d R) as [[w2 logs]|] eqn:E2; [|discriminate].
+  intros H. exists w1, l1, w2, logs. split; [reflexivity|]. split; [exact E2|exact H].
+Qed.
+
+Lemma unconditional_refuted_by (F : sched) (t d : Z) (R : list sched) (L : nat) :
+  (exists w1 l1 w2 logs,
+     run empty_world F = Some (w1, l1) /\ fair_rounds w1 t d R = Some (w2, logs) /\
+     ((L <=? length R)%nat && negb (converged_b w2 && match last logs with Some lg => quiet lg | None => true end)) = true) ->
+  ~ C18_unconditional L d.
+Proof.
+  intros (w1 & l1 & w2 & logs & H1 & H2 & H3) HU.
+  apply andb_true_iff in H3 as [HL H3]. apply Nat.leb_le in HL.
+  destruct (HU F t R w1 l1 w2 logs H1 H2 HL) as [Hc Hq].
+  apply converged_b_complete in Hc. rewrite Hc in H3. cbn [andb] in H3.
+  destruct (last logs) as [lg|]; [rewrite (Hq lg eq_refl) in H3|]; discriminate.
+Qed.
+
+(** (a) two healthy nodes, timeout 300, 40 fair rounds of length 50 *)
+Definition wa_P (w1 : world) (l1 : evlog) (w2 : world) (logs : list evlog) : bool :=
+  only_clean_starts (faults_of wa_play 40) && (length (rounds_of wa_play 40) =? 40)%nat &&
+  (length (nodes_of w2) =? 2)%nat &&
+  existsb (removal_of_running w2) (skipn 30 logs) &&
+  negb (converged_b w2) && negb (same_members_everywhere w2).
+
+Lemma wa_check :
+  exists w1 l1 w2 logs,
+    run empty_world (faults_of wa_play 40) = Some (w1, l1) /\
+    fair_rounds w1 1050 50 (rounds_of wa_play 40) = Some (w2, logs) /\ wa_P w1 l1 w2 logs = true.
+Proof. apply witness_intro. vm_compute. reflexivity. Qed.
+
+Lemma unconditional_refuted : ~ C18_unconditional 40 50.
+Proof.
+  apply (unconditional_refuted_by (faults_of wa_play 40) 1050 50 (rounds_of wa_play 40) 40).
+  apply witness_intro. vm_compute. reflexivity.
+Qed.
+
+(** (c) the same two nodes with SuspectConfirmDuration 100000: both consider themselves leader *)
+Definition wc_P (w1 : world) (l1 : evlog) (w2 : world) (logs : list evlog) : bool :=
+  only_clean_starts (faults_of wc_play 40) && (length (rounds_of wc_play 40) =? 40)%nat &&
+  (length (nodes_of w2) =? 2)%nat && same_members_everywhere w2 && (length (leaders_of w2) =? 2)%nat &&
+  existsb (fun n => existsb (fun s => (ns_status s =? st_suspect)%Z && is_running w2 (ns_addr s)) (states (nd_view n))) (nodes_of w2).
+Lemma wc_check :
+  exists w1 l1 w2 logs,
+    run empty_world (faults_of wc_play 40) = Some (w1, l1) /\
+    fair_rounds w1 1050 50 (rounds_of wc_play 40) = Some (w2, logs) /\ wc_P w1 l1 w2 logs = true.
+Proof. apply witness_intro. vm_compute. reflexivity. Qed.
+
+(** (b) failure detection off; x crashed and was forced down at s (absent from s's view when the faults stop);
+    30 fair rounds later both running nodes, s included, list x *)
+Definition wb_P (w1 : world) (l1 : evlog) (w2 : world) (logs : list evlog) : bool :=
+  (length (rounds_of wb_play 30) =? 30)%nat &&
+  negb (is_running w1 ad3) && negb (is_running w2 ad3) &&
+  existsb (fun p => bool_decide (fst p = ad1) && match snd p with EMembers _ 0 [r] => bool_decide (r = ad3) | _ => false end) l1 &&
+  match w_nodes w1 !! ad1 with Some s => negb (lists_id s [120]) | None => false end &&
+  (length (nodes_of w2) =? 2)%nat && forallb (fun n => lists_id n [120]) (nodes_of w2) &&
+  forallb quiet (skipn 5 logs).
+Lemma wb_check :
+  exists w1 l1 w2 logs,
+    run empty_world (faults_of wb_play 30) = Some (w1, l1) /\
+    fair_rounds w1 1250 50 (rounds_of wb_play 30) = Some (w2, logs) /\ wb_P w1 l1 w2 logs = true.
+Proof. apply witness_intro. vm_compute. reflexivity. Qed.
+
+(** (d) failure detection off; j left gracefully; 30 fair rounds later s still lists it, computes it as the leader,
+    and no running node considers itself leader *)
+Definition wd_P (w1 : world) (l1 : evlog) (w2 : world) (logs : list evlog) : bool :=
+  (length (rounds_of wd_play 30) =? 30)%nat &&
+  existsb (fun p => bool_decide (fst p = ad1) && match snd p with ELeaveCompleted => true | _ => false end) l1 &&
+  negb (is_running w2 ad1) &&
+  match w_nodes w2 !! ad2 with
+  | Some s => lists_id s [106] && bool_decide (leader_of (nd_view s) = ad1)
+  | None => false
+  end &&
+  (length (nodes_of w2) =? 1)%nat && (length (leaders_of w2) =? 0)%nat && forallb quiet logs.
+Lemma wd_check :
+  exists w1 l1 w2 logs,
+    run empty_world (faults_of wd_play 30) = Some (w1, l1) /\
+    fair_rounds w1 1250 50 (rounds_of wd_play 30) = Some (w2, logs) /\ wd_P w1 l1 w2 logs = true.
+Proof. apply witness_intro. vm_compute. reflexivity. Qed.
+
+(** (e) j restarted under the same NodeID and re-derived the incarnation number (2,2) its predecessor already had:
+    30 fair rounds later s1 still holds the predecessor's entry (its timestamp) although all views "agree" *)
+Definition entry_ts (n : node) (id : list N) : option (Z * N * Z) :=
+  match vw_members (nd_view n) !! id with Some s => Some (ns_gen s, ns_lc s, ns_ts s) | None => None end.
+Definition we_P (w1 : world) (l1 : evlog) (w2 : world) (logs : list evlog) : bool :=
+  (length (rounds_of we_play 30) =? 30)%nat && converged_b w2 && forallb quiet (skipn 5 logs) &&
+  match w_nodes w2 !! ad1, w_nodes w2 !! ad3 with
+  | Some s1, Some j =>
+      bool_decide (entry_ts s1 [106] = Some (2%Z, 2, 1020%Z)) &&
+      bool_decide ((ns_gen (nd_self j), ns_lc (nd_self j), ns_ts (nd_self j)) = (2%Z, 2, 1100%Z)) &&
+      bool_decide (entry_ts j [106] = Some (2%Z, 2, 1100%Z))
+  | _, _ => false
+  end.
+Lemma we_check :
+  exists w1 l1 w2 logs,
+    run empty_world (faults_of we_play 30) = Some (w1, l1) /\
+    fair_rounds w1 1150 50 (rounds_of we_play 30) = Some (w2, logs) /\ we_P w1 l1 w2 logs = true.
+Proof. apply witness_intro. vm_compute. reflexivity. Qed.
+
+(** * True statements next to the refuted ones *)
+
+(** (d) a leave tells the peers nothing: the view (the leaver's own entry included) is not touched, and every
+    GossipMessage sent carries exactly that view *)
+Theorem leave_not_announced n :
+  nd_view (fst (fst (leave n))) = nd_view n /\
+  forall d v, (d, v) ∈ snd (fst (leave n)) -> v = nd_view n.
+Proof.
+  unfold leave. destruct (ns_status (nd_self n) =? st_joining)%Z; [split; [reflexivity|intros d v H; inversion H]|].
+  destruct ((ns_status (nd_self n) =? st_leaving)%Z || (ns_status (nd_self n) =? st_exiting)%Z);
+    [split; [reflexivity|intros d v H; inversion H]|].
+  set (n1 := set_self _ _).
+  destruct (broadcast n1) as [n2 out] eqn:E. cbn [fst snd]. split.
+  - change (nd_view n2 = nd_view n). change n2 with (fst (n2, out)). rewrite <- E, broadcast_view. reflexivity.
+  - intros d v H. change out with (snd (n2, out)) in H. rewrite <- E in H. apply broadcast_payload in H. exact H.
+Qed.
+
+(** (f) a member learned through a merge is stored with the LastSeen of the sender's copy: when the sender of the
+    GossipMessage is not itself a member of the local view (no refresh happens), an id the local view does not
+    have is adopted verbatim from the received view *)
+Theorem learned_member_keeps_foreign_lastseen n src v now id s :
+  refresh_candidates (nd_view n) src = [] ->
+  vw_members (nd_view n) !! id = None -> vw_members v !! id = Some s ->
+  vw_members (nd_view (fst (fst (handle_gossip n src v now None)))) !! id = Some s.
+Proof.
+  intros _ Hn Hv. rewrite handle_gossip_view. unfold gossip_pre.
+  rewrite view_merge_members, merge_members_lookup, Hn, Hv. reflexivity.
+Qed.
+
+(** * Boolean checkers for the hypotheses of the theorems (used by the Examples of Properties/C18.v) *)
+
+Definition WF_b (v : view) : bool :=
+  forallb (fun p => bool_decide (ns_id (snd p) = fst p) && (1 <=? ns_gen (snd p))%Z && (1 <=? ns_lc (snd p)))
+          (map_to_list (vw_members v)).
+Lemma WF_b_sound v : WF_b v = true -> WF v.
+Proof.
+  unfold WF_b. rewrite forallb_forall. intros H k s Hk.
+  apply elem_of_map_to_list, elem_of_list_In in Hk. specialize (H _ Hk). cbn [fst snd] in H.
+  rewrite !andb_true_iff, bool_decide_eq_true in H. destruct H as [[H1 H2] H3]. split; [exact H1|split; lia].
+Qed.
+
+Definition world_ok_b (w : world) : bool :=
+  match w_net w with [] => true | _ :: _ => false end &&
+  forallb (fun p => bool_decide (nd_addr (snd p) = fst p) && WF_b (nd_view (snd p))) (map_to_list (w_nodes w)).
+Lemma world_ok_b_sound w :
+  world_ok_b w = true ->
+  (forall a n, w_nodes w !! a = Some n -> nd_addr n = a) /\
+  (forall a n, w_nodes w !! a = Some n -> WF (nd_view n)) /\ w_net w = [].
+Proof.
+  unfold world_ok_b. rewrite andb_true_iff, forallb_forall. intros [Hn H].
+  assert (forall a n, w_nodes w !! a = Some n -> nd_addr n = a /\ WF (nd_view n)) as HH.
+  { intros a n Ha. apply elem_of_map_to_list, elem_of_list_In in Ha. specialize (H _ Ha). cbn [fst snd] in H.
+    rewrite andb_true_iff, bool_decide_eq_true in H. destruct H as [H1 H2]. split; [exact H1|apply WF_b_sound; exact H2]. }
+  split; [intros a n Ha; apply (HH a n Ha)|]. split; [intros a n Ha; apply (HH a n Ha)|].
+  destruct (w_net w); [reflexivity|discriminate].
+Qed.
+
+Definition all_reached_b (w0 : world) (aw : aworld) : bool :=
+  forallb (fun p : list N * (node * origins) => forallb (fun b => bool_decide (b ∈ snd (snd p))) (map fst (map_to_list (w_nodes w0))))
+          (map_to_list (aw_nodes aw)).
+Lemma all_reached_b_sound w0 aw : all_reached_b w0 aw = true -> all_reached w0 aw.
+Proof.
+  unfold all_reached_b. rewrite forallb_forall. intros H a n o Ha b [m Hb].
+  apply elem_of_map_to_list, elem_of_list_In in Ha. specialize (H _ Ha). cbn [snd] in H.
+  rewrite forallb_forall in H.
+  assert (Hin : In b (map fst (map_to_list (w_nodes w0)))).
+  { apply elem_of_list_In, elem_of_list_fmap. exists (b, m). split; [reflexivity|]. apply elem_of_map_to_list. exact Hb. }
+  specialize (H b Hin). apply bool_decide_eq_true in H. exact H.
+Qed.
+
+Lemma same_set_b_sound {A} `{EqDecision A} (l1 l2 : list A) :
+  subset_b l1 l2 && subset_b l2 l1 = true -> same_set l1 l2.
+Proof.
+  rewrite andb_true_iff. intros [H1 H2] x. split; [apply (subset_b_sound _ _ H1)|apply (subset_b_sound _ _ H2)].
+Qed.
+
+(** three nodes (seeds s and a, member x), failure detection off, after three fair rounds *)
+Definition ex_world : world :=
+  match play empty_world [PSteps wb_prefix; PRounds 3 1050 50] with Some (w, _) => w | None => empty_world end.
+
+(** three islands: s and a bootstrapped on their own, x joined s; every packet sent so far was lost *)
+Definition ex_islands : world :=
+  match run empty_world (wb_prefix ++ [(1030, SDrop 0); (1030, SDrop 0); (1030, SDrop 0); (1030, SDrop 0); (1030, SDrop 0)])%Z with
+  | Some (w, _) => w | None => empty_world end.
+Definition ex_round : list (Z * step) :=
+  match auto_round 1050 ex_islands with Some (_, s, _) => s | None => [] end.
